@@ -386,6 +386,18 @@ func (rs reqSpec) httpRequest(extraSlash bool) (*http.Request, error) {
 	if extraSlash {
 		path += "/"
 	}
+	if rs.EscSlash > 0 && !rs.Opaque {
+		n := 0
+		for i := 0; i < len(path); i++ {
+			if path[i] == '/' {
+				n++
+				if n == rs.EscSlash && i > 0 {
+					path = path[:i] + "\x00" + path[i+1:]
+					break
+				}
+			}
+		}
+	}
 	hdr := [][2]string{{"Content-Type", rs.CT}, {"Accept", rs.Acc}, {"X-Cond", condHeader(rs.Conds)}, {"X-Cond-Panic", condHeader(rs.CPanic)}}
 	for k, v := range rs.Hdr {
 		hdr = append(hdr, [2]string{k, v})
@@ -592,6 +604,11 @@ func runRoute(planPath, outPath string, seed int64) {
 			for _, v := range variants {
 				for _, sl := range slashes {
 					for _, en := range p.Entries {
+						if en == "S" && rq.EscSlash > 0 {
+							// net/http's ServeMux matches patterns segment by segment on the ESCAPED path: where such a
+							// request lands is its decision; the framework is asked through Dispatch
+							continue
+						}
 						hr, err := rq.httpRequest(sl == 1)
 						if err != nil {
 							continue
